@@ -141,8 +141,14 @@ func genC10(seed uint64, run int, tier string) Scenario {
 		s1 := st{m: m, kind: sg.kind}
 		plan.Asks = append(plan.Asks, sg.kind)
 		if pos < len(round)-1 {
-			pos++
 			stages = append(stages, s1)
+			if sg.kind == "user" && left > 0 && r.IntN(8) == 0 {
+				// the device draws its user-name prompt again right away (it did not like the name)
+				left--
+
+				continue
+			}
+			pos++
 
 			continue
 		}
@@ -183,6 +189,11 @@ func genC10(seed uint64, run int, tier string) Scenario {
 	dead := &peer.Mode{Name: "dead", Prompt: ""}
 	if plan.End == "ssherror" {
 		dead.Prompt = plan.ErrLine + nl
+		if r.IntN(2) == 0 {
+			// ... and the ssh client goes on to ask again in the same breath (as it does after
+			// "Permission denied, please try again."): the failure message still decides
+			dead.Prompt += passPrompt
+		}
 	}
 	for i := range stages {
 		if i >= cut {
@@ -197,6 +208,15 @@ func genC10(seed uint64, run int, tier string) Scenario {
 			rep.Next = "exec"
 			if r.IntN(2) == 0 {
 				rep.Out = banner(r, "", 1) // motd line before the shell prompt
+			}
+			if r.IntN(8) == 0 {
+				// a message of the day far longer than the prompt search depth: every byte of it
+				// still belongs to the first operation
+				rep.Out = banner(r, nl, between(r, 40, 90))
+				rep.Out = append(rep.Out, peer.Tok{S: "last motd line"})
+				if sc.ReadSize < 64 {
+					sc.ReadSize = 64
+				}
 			}
 		default:
 			rep.Next = stages[i+1].m.Name
